@@ -880,8 +880,8 @@ pub fn crash_family(prop: &str) -> i32 {
     // (geometry, images, cfgs, depth, seconds)
     let plans: Vec<SeqPlan> = if !thorough {
         vec![
-            SeqPlan { geo: images::G9, images: vec!["libfmt"], cfgs: vec!["small"], depth: 5, secs: 14 },
-            SeqPlan { geo: images::G10, images: vec!["libfmt", "data"], cfgs: vec!["small"], depth: 4, secs: 24 },
+            SeqPlan { geo: images::G9, images: if prop == "C05" { vec!["libfmt", "data"] } else { vec!["libfmt"] }, cfgs: vec!["small"], depth: 5, secs: 14 },
+            SeqPlan { geo: images::G10, images: if prop == "C05" { vec!["libfmt", "data", "compressed", "backing"] } else { vec!["libfmt", "data"] }, cfgs: vec!["small"], depth: if prop == "C05" { 5 } else { 4 }, secs: 24 },
         ]
     } else {
         vec![
